@@ -98,14 +98,11 @@ def Ghost.visibleLog (g : Ghost) : List Entry :=
 
 /-- An optionally signed decimal integer of any size. -/
 def decimal? (s : Bytes) : Option Int :=
-  let body := match s with
-    | 43 :: r => r
-    | 45 :: r => r
-    | r => r
-  if body = [] ∨ !body.all isDigit then none
+  let nb := signBody s
+  if nb.2 = [] ∨ !nb.2.all isDigit then none
   else
-    let v : Int := digitsVal body
-    some (if s.head? = some 45 then -v else v)
+    let v : Int := digitsVal nb.2
+    some (if nb.1 then -v else v)
 
 /-- `s` contains `sub` at some offset, ignoring ASCII letter case. -/
 def containsSpec (s sub : Bytes) : Bool :=
@@ -143,40 +140,59 @@ structure Ask where
   term : Option (Bytes × Bytes × Bool)   -- value, IDNA form (or empty), exact
   status : Option Status
 
+/-- `limit`: default 500 when absent or not a number; `none` when negative or
+too large. -/
+def askLimit (r : Req) : Option Nat :=
+  match decimal? r.limitRaw with
+  | none => some 500
+  | some v => if 0 ≤ v ∧ v ≤ maxInt then some v.toNat else none
+
+/-- `offset`: `some none` = not given (cursor paging). -/
+def askOffset (r : Req) (limit : Nat) : Option (Option Nat) :=
+  match decimal? r.offsetRaw with
+  | none => some none
+  | some v => if 0 ≤ v ∧ v + limit ≤ maxInt then some (some v.toNat) else none
+
+def askStatus (r : Req) : Option (Option Status) :=
+  if r.statusRaw = [] then some none
+  else match statusOfName (unquote r.statusRaw).1 with
+    | some v => some (some v)
+    | none => none
+
+def askTerm (r : Req) : Option (Option (Bytes × Bytes × Bool)) :=
+  if r.searchRaw = [] then some none
+  else if r.asciiErr then none
+  else
+    let u := unquote r.searchRaw
+    some (some (u.1, (if r.asciiRet = lower u.1 then [] else r.asciiRet), u.2))
+
+def askOlder (r : Req) : Option (Option Int) :=
+  match r.older with
+  | .bad => none
+  | .at t => some (some t)
+  | .absent => some none
+  | .zero => some none
+
 /-- `none`: the request is not well-formed (a number that is negative or does
 not fit, an unparsable time, an unknown status, a term whose IDNA conversion
 failed): the property then only demands that nothing crashes. -/
 def ask (r : Req) : Option Ask :=
-  match r.older with
-  | .bad => none
-  | older =>
-    let olderThan : Option Int := match older with | .at t => some t | _ => none
-    -- limit: default 500 when absent or not a number
-    let limit? : Option Nat := match decimal? r.limitRaw with
-      | none => some 500
-      | some v => if 0 ≤ v ∧ v ≤ maxInt then some v.toNat else none
-    match limit? with
+  match askOlder r with
+  | none => none
+  | some olderThan =>
+    match askLimit r with
     | none => none
     | some limit =>
-      let off? : Option (Option Nat) := match decimal? r.offsetRaw with
-        | none => some none
-        | some v => if 0 ≤ v ∧ v + limit ≤ maxInt then some (some v.toNat) else none
-      match off? with
+      match askOffset r limit with
       | none => none
       | some offset =>
-        let status? : Option (Option Status) :=
-          if r.statusRaw = [] then some none
-          else match statusOfName (unquote r.statusRaw).1 with
-            | some v => some (some v)
-            | none => none
-        match status? with
+        match askStatus r with
         | none => none
         | some status =>
-          if r.searchRaw ≠ [] ∧ r.asciiErr then none else
-          let term := if r.searchRaw = [] then none else
-            let (val, strict) := unquote r.searchRaw
-            some (val, (if r.asciiRet = lower val then [] else r.asciiRet), strict)
-          some { olderThan := olderThan, offset := offset, limit := limit, term := term, status := status }
+          match askTerm r with
+          | none => none
+          | some term =>
+            some { olderThan := olderThan, offset := offset, limit := limit, term := term, status := status }
 
 /-- The entry satisfies the request's filters. -/
 def satisfies (c : Conf) (a : Ask) (e : Entry) : Bool :=
@@ -203,6 +219,17 @@ inductive Answer where
   | status (code : Nat)        -- anything but 200
   | ok (p : Page)
 
+/-- A cursor promises something only if it is absent or the time of a recorded
+(visible) entry — which every returned cursor is. -/
+def cursorKnown (g : Ghost) : Option Int → Bool
+  | none => true
+  | some t => g.visibleLog.any (fun e => e.ts == t)
+
+/-- The returned cursor is older than the one sent. -/
+def cursorMoves (c : Int) : Option Int → Bool
+  | none => true
+  | some t => decide (c < t)
+
 /-- `none` = fine, `some reason` = which clause of the property is broken. -/
 def specSearch (g : Ghost) (r : Req) (ans : Answer) : Option String :=
   match ans with
@@ -223,11 +250,7 @@ def specSearch (g : Ghost) (r : Req) (ans : Answer) : Option String :=
       else if ids.length > a.limit then some "C07.limit"
       else if a.limit = 0 then none
       else
-        -- a cursor promises something only if it is absent or the time of a recorded entry
-        let cursorOK := match a.olderThan with
-          | none => true
-          | some t => g.visibleLog.any (fun e => e.ts == t)
-        if !cursorOK then none else
+        if !cursorKnown g a.olderThan then none else
         match a.offset with
         | some o =>
           if ids ≠ ((vis.drop o).take a.limit).map (·.id) then some "C07.page-offset" else none
@@ -236,9 +259,7 @@ def specSearch (g : Ghost) (r : Req) (ans : Answer) : Option String :=
           | none => if ids ≠ vis.map (·.id) then some "C07.page-cursor-end" else none
           | some c =>
             if ids ≠ (vis.filter (fun e => decide (e.ts ≥ c))).map (·.id) then some "C07.page-cursor"
-            else match a.olderThan with
-              | some t => if c < t then none else some "C07.cursor-progress"
-              | none => none
+            else if cursorMoves c a.olderThan then none else some "C07.cursor-progress"
 
 /-- State dump after an operation: ids in memory, current file, rotated file. -/
 def specDump (g : Ghost) (mem cur rot : List Nat) : Option String :=
@@ -246,5 +267,42 @@ def specDump (g : Ghost) (mem cur rot : List Nat) : Option String :=
   if rot ++ cur ++ mem ≠ g.log.map (·.1.id) then some "C07.log"
   else if mem ≠ want .mem ∨ cur ≠ want .cur ∨ rot ≠ want .rot then some "C07.log-location"
   else none
+
+/-! ## Histories -/
+
+/-- One event of a history: an operation on the log or a request to the API
+(with the scan budget the handler starts from: 50000 in the product). -/
+inductive Event where
+  | op (o : Op)
+  | search (scanDefault : Int) (r : Req)
+
+/-- What the model answers, as the monitor sees an answer. -/
+def modelAnswer (sd : Int) (s : State) (r : Req) : Answer :=
+  match handle sd s r with
+  | .error _ => .crash
+  | .ok .bad => .status 400
+  | .ok (.ok es o) => .ok { items := es.map (fun e => (e.id, true)), oldest := o }
+
+/-- The monitor's verdict on the model's own behaviour at one event. -/
+def modelEventOK (g : Ghost) (s : State) : Event → Bool
+  | .op o =>
+    let s' := step s o
+    (specDump (gStep g o) (s'.mem.map (·.id)) (s'.cur.map (·.id)) (s'.rot.map (·.id))).isNone
+  | .search sd r => (specSearch g r (modelAnswer sd s r)).isNone
+
+/-- The monitor accepts the model at every event of the history. -/
+def runOK (g : Ghost) (s : State) : List Event → Bool
+  | [] => true
+  | .op o :: rest => modelEventOK g s (.op o) && runOK (gStep g o) (step s o) rest
+  | .search sd r :: rest => modelEventOK g s (.search sd r) && runOK g s rest
+
+/-- Histories the property speaks about: the clock moves forward between
+records (`last` is the time of the latest record submitted), and the handler's
+scan budget is at least two records (or unlimited). -/
+def histOK : Int → List Event → Prop
+  | _, [] => True
+  | last, .op (.add e) :: rest => last < e.ts ∧ histOK e.ts rest
+  | last, .op _ :: rest => histOK last rest
+  | last, .search sd _ :: rest => (2 ≤ sd ∨ sd ≤ 0) ∧ histOK last rest
 
 end AGH.C07
